@@ -801,6 +801,7 @@ def run(ctx):
     guarded(ctx, 'attribute_matrix', attribute_matrix, ctx, cases, meta)
     guarded(ctx, 'field_cases', c16_fields.field_cases, ctx, cases, meta)
     guarded(ctx, 'session_cases', c16_session.session_cases, ctx, cases, meta)
+    guarded(ctx, 'wire_field_cases', c16_fields.wire_field_cases, ctx, cases, meta)
     guarded(ctx, 'mixed_version_cases', c16_session.mixed_version_cases, ctx, cases, meta)
     guarded(ctx, 'answer_path_cases', c16_session.answer_path_cases, ctx, cases, meta)
     ctx.log('%d correspondence cases built' % len(cases))
@@ -839,6 +840,7 @@ def replay(ctx, rec):
         attribute_matrix(ctx, cases, meta)
     if fam in (None, 'fields'):
         c16_fields.field_cases(ctx, cases, meta)
+        c16_fields.wire_field_cases(ctx, cases, meta)
     if fam in (None, 'session', 'ops'):
         c16_session.session_cases(ctx, cases, meta)
         c16_session.mixed_version_cases(ctx, cases, meta)
